@@ -1,5 +1,6 @@
 pub mod c05;
 pub mod c07;
+pub mod c09;
 pub mod c10;
 pub mod c12;
 pub mod c13;
@@ -27,6 +28,7 @@ pub fn run(id: &str, cfg: &RunCfg) -> Option<PropResult> {
         "C01" | "C02" | "C03" | "C04" | "C19" => Some(screen_props::run(id, cfg)),
         "C05" => Some(c05::run(cfg)),
         "C07" => Some(c07::run(cfg)),
+        "C09" => Some(c09::run(cfg)),
         "C10" => Some(c10::run(cfg)),
         "C12" => Some(c12::run(cfg)),
         "C13" => Some(c13::run(cfg)),
